@@ -1757,7 +1757,7 @@ def import_jackknife(jacks, name, idl=None):
     prj = (np.ones((length, length)) - (length - 1) * np.identity(length))
     samples = jacks[1:] @ prj
     new_obs = Obs([samples], [name], idl=idl)
-    new_obs._value = jacks[0]
+    new_obs._value = float(jacks[0])
     return new_obs
 
 
@@ -1787,7 +1787,7 @@ def import_bootstrap(boots, name, random_numbers):
 
     samples = scipy.linalg.lstsq(proj, boots[1:])[0]
     ret = Obs([samples], [name])
-    ret._value = boots[0]
+    ret._value = float(boots[0])
     return ret
 
 
